@@ -1,7 +1,7 @@
 (* C20 — the shipped lexer and parser implement the documented grammar.
    The grammar data (g4_lexer_rules, g4_token_types, g4_parser_rules) is regenerated from
    parser/JsonQuery.g4 on every run; the model lexer interprets it. *)
-From Rules Require Import Eval Layout ParserProofs RegexProofs LexerProofs.
+From Rules Require Import Eval Layout ParserProofs RegexProofs LexerProofs Grammar GrammarProofs SentenceProofs.
 From Coq Require Import String.
 Open Scope N_scope.
 
@@ -20,6 +20,22 @@ Theorem C20_derivative : forall c r s, matches (deriv c r) s <-> matches r (c ::
 Proof. exact deriv_matches. Qed.
 Print Assumptions C20_lexer_is_maximal_munch.
 Print Assumptions C20_lexer_rejects_iff_no_tokenisation.
+
+(* the model parser accepts exactly the token lists that derive from `query` by the parser
+   rules generated from the .g4 (generic CFG derivations over the rule DATA) ... *)
+Theorem C20_parser_recognises_grammar :
+  forall ts, parse_tokens ts <> None <-> sentence g4_parser_rules N_query ts.
+Proof. exact parser_recognises_grammar. Qed.
+(* ... and reads every sentence as a printed rule tree (grouping of C01) *)
+Theorem C20_parser_complete :
+  forall ts, sentence g4_parser_rules N_query ts ->
+    exists c, wf_chain c /\ map norm ts = print_chain c /\ parse_tokens ts = Some (erase_chain c).
+Proof. exact parse_complete. Qed.
+Theorem C20_recogniser : forall t, parse_text t <> None <-> is_sentence t.
+Proof. exact parse_text_iff_sentence. Qed.
+Print Assumptions C20_parser_recognises_grammar.
+Print Assumptions C20_parser_complete.
+Print Assumptions C20_recogniser.
 
 (* the parser model reads every sentence printed from a rule tree with the structure the
    grammar prescribes (completeness on all printed trees, all depths) *)
